@@ -256,7 +256,12 @@ func runProperty(prop, tier string, workers int) int {
 	}
 	var items []WorkItem
 	twinIdx := map[int]bool{}
+	var unavailable []string
 	for _, s := range specs {
+		if f, dropped := droppedHarness[s.Name]; dropped {
+			unavailable = append(unavailable, fmt.Sprintf("harness %s is unavailable on this tree: %s does not compile against the changed internals (the remaining harnesses still ran)", s.Name, f))
+			continue
+		}
 		cs := s.tuples(tier)
 		for _, p := range cs {
 			items = append(items, WorkItem{Spec: s, Params: p, Idx: len(items)})
@@ -282,7 +287,7 @@ func runProperty(prop, tier string, workers int) int {
 	}
 
 	exit := 0
-	inconclusive := []string{}
+	inconclusive := append([]string{}, unavailable...)
 	sums := map[string]*specSummary{}
 	var order []string
 	funcs := map[string]bool{}
@@ -692,6 +697,12 @@ func selftest() int {
 		if c := runProperty(p, "quick", 8); c != 0 {
 			rc = c
 		}
+	}
+	// at setup every harness file must compile against the tree (the degraded load is only for
+	// changed trees at check time)
+	if len(droppedHarness) > 0 {
+		fmt.Println("selftest: harness files do not compile against /repo:", droppedHarness)
+		return 3
 	}
 	// A-LW: the legacy writer models must reproduce every archived fixture
 	ov, err := buildOverlay()
